@@ -94,8 +94,15 @@ EncBigStep ==
     ELSE IF ~Ev.same THEN Say("RT", "decode(encode(v)) differs from v (array of " \o ToString(Ev.n) \o " elements)")
     ELSE TRUE
 
+\* a conformant encoding too long for the reference decoder (harness-built, compared in Rust)
+DecBigStep ==
+    IF ~IsOk(Ev.res) THEN Say("DEC", "decoder rejected a conformant encoding: " \o Ev.res)
+    ELSE IF ~Ev.same THEN Say("DEC", "decoder returned a different value than the encoding denotes (" \o ToString(Ev.count) \o " of " \o ToString(Ev.n) \o " values)")
+    ELSE TRUE
+
 Step == /\ l <= NRec
         /\ CASE Ev.ev = "Enc" -> EncStep
+             [] Ev.ev = "DecBig" -> DecBigStep
              [] Ev.ev = "EncBig" -> EncBigStep
              [] Ev.ev = "Dec" -> DecStep
              [] OTHER -> TRUE
